@@ -34,7 +34,7 @@ func init() {
 			"race freedom is what the Go race detector reports on the executions produced (GORACE log, report blocks counted)",
 		},
 		Require: []string{"testdrv_histories", "testdrv_relistens", "testdrv_sends_before_first_listen", "testdrv_sends_closed", "testdrv_deliveries",
-			"mc_histories", "mc_deliveries", "mc_overlapping_sends", "mc_exactly_once_checks", "mc_stop_stamp_checks", "mc_porcupine_histories", "mc_relistens", "mc_stops_with_traffic_in_flight", "open_unstartable_probes", "helper_dies_probes", "mc_slow_callback_stops", "close_with_traffic_probes", "mc_opens_from_dying_thread"},
+			"mc_histories", "mc_deliveries", "mc_overlapping_sends", "mc_exactly_once_checks", "mc_stop_stamp_checks", "mc_porcupine_histories", "mc_relistens", "mc_stops_with_traffic_in_flight", "open_unstartable_probes", "helper_dies_probes", "mc_slow_callback_stops", "close_with_traffic_probes", "mc_opens_from_dying_thread", "mc_listento_deliveries"},
 		Workers: 8,
 		UsesCur: true,
 		Run:     runC17,
@@ -131,6 +131,12 @@ func runC17(c *mon.Ctx) {
 		if i == 0 {
 			c.Sample("midicat-history", "ports opened twice, cycles of Listen / probe / concurrent senders / sentinel / stop / messages outside the window, Close twice, Send and Listen on closed ports; see rule")
 		}
+	})
+
+	// (b2) ordinary MIDI messages of every length through midi.SendTo / midi.ListenTo on the same driver
+	c.Each("midicat-listento", c.N(16, 300), func(i int64, r *mon.Rand) {
+		runMidicatListenTo(c, r, i)
+		c.DistinctBytes([]byte(fmt.Sprint("mclt", i)))
 	})
 
 	c.Each("midicat-slow-callback", 1, func(_ int64, _ *mon.Rand) { runSlowCallbackHistory(c) })
